@@ -140,6 +140,11 @@ def recover_receiver_ok(prog, rcv):
 
     if rcv[0] == "call" and rcv[1] == "std::option::Option::unwrap_or" and staker(rcv[2][1]):
         return True
+    if rcv[0] == "call" and rcv[1] == "std::option::Option::unwrap_or_else" and len(rcv[2]) == 2 and rcv[2][1][0] == "closure":
+        # .unwrap_or_else(|| config.native_chain_config.staker_address.clone())
+        r_ = closure_result(prog, rcv[2][1], params={})
+        if r_ is not None and staker(r_):
+            return True
     alts = rcv[1] if rcv[0] == "phi" else (rcv,)
     return len(alts) == 2 and any(staker(a) for a in alts) and any(validated(a) for a in alts)
 
